@@ -1,7 +1,8 @@
 (* C14 property theorems only: each closed by `exact <lemma>` with Print Assumptions beneath.
    All definitions named *_nverts, *_faces, *_edges, *_cells, *_coords, *_rejects, ring_bisect_*, icosphere_* are GENERATED
-   from the current source of mouette/procedural (Gen.v).  Admissible parameters: grids/triangles nu, nv >= 2; torus
-   M, m >= 3; sphere_uv n >= 1, L >= 3; cylinder N >= 3; ring N >= 3, n_cover >= 1; flat_ring N * n_cover >= 1; chains n >= 1.
+   from the current source of mouette/procedural (Gen.v).  The admissible parameters are the ones the code accepts: every
+   theorem about a parametric generator g is stated under `g_rejects p = false`, where g_rejects is the generated guard
+   (`if ...: raise`); C14_rejects says exactly what each guard rejects.  Chains: n = number of input points, n >= 1.
 
    The property for a surface generator g with parameters p:
      well_formed (g_nverts p) (g_faces p)          -- C14_well_formed: indices in range, every vertex used, simple faces,
@@ -22,60 +23,77 @@ Require Import MV.C14.ProofsGrid MV.C14.ProofsTri MV.C14.ProofsTorus MV.C14.Proo
                MV.C14.ProofsRing MV.C14.ProofsPoly MV.C14.ProofsTables MV.C14.ProofsCoords MV.C14.ProofsBisect MV.C14.ProofsAll.
 Open Scope Z_scope.
 
+Theorem C14_rejects :
+  (forall nu nv t u, unit_grid_rejects nu nv t u = true <-> nu < 2 \/ nv < 2) /\
+  (forall nu nv u, unit_triangle_rejects nu nv u = true <-> nu < 2 \/ nv < 2) /\
+  (forall M m t, torus_rejects M m t = true <-> M < 3 \/ m < 3) /\
+  (forall n L, sphere_uv_rejects n L = true <-> n < 1 \/ L < 3) /\
+  (forall N c, cylinder_rejects N c = true <-> N < 3) /\
+  (forall N o k, ring_rejects N o k = true <-> N < 3 \/ k < 1) /\
+  (forall N k, flat_ring_rejects N k = true <-> N < 1 \/ k < 1) /\
+  (* the constant-table generators and the polyline generators reject nothing *)
+  triangle_rejects = false /\ (forall t, quad_rejects t = false) /\ (forall v, tetrahedron_rejects v = false) /\
+  (forall c t v, hexahedron_rejects c t v = false) /\ (forall c t, axis_aligned_cube_rejects c t = false) /\
+  (forall c v, hexahedron_4pts_rejects c v = false) /\ (forall u, icosahedron_rejects u = false) /\
+  octahedron_rejects = false /\ dodecahedron_rejects = false /\
+  (forall n l, chain_of_vertices_rejects n l = false) /\ (forall n, vector_field_rejects n = false).
+Proof. exact all_rejects. Qed.
+Print Assumptions C14_rejects.
+
 Theorem C14_well_formed :
-  (forall nu nv t u, 2 <= nu -> 2 <= nv -> well_formed (unit_grid_nverts nu nv t u) (unit_grid_faces nu nv t u)) /\
-  (forall nu nv u, 2 <= nu -> 2 <= nv -> well_formed (unit_triangle_nverts nu nv u) (unit_triangle_faces nu nv u)) /\
-  (forall M m t, 3 <= M -> 3 <= m -> well_formed (torus_nverts M m t) (torus_faces M m t)) /\
-  (forall n L, 1 <= n -> 3 <= L -> well_formed (sphere_uv_nverts n L) (sphere_uv_faces n L)) /\
-  (forall N c, 3 <= N -> well_formed (cylinder_nverts N c) (cylinder_faces N c)) /\
-  (forall N o k, 3 <= N -> 1 <= k -> well_formed (ring_nverts N o k) (ring_faces N o k)) /\
-  (forall N k, 1 <= N * k -> well_formed (flat_ring_nverts N k) (flat_ring_faces N k)).
+  (forall nu nv t u, unit_grid_rejects nu nv t u = false -> well_formed (unit_grid_nverts nu nv t u) (unit_grid_faces nu nv t u)) /\
+  (forall nu nv u, unit_triangle_rejects nu nv u = false -> well_formed (unit_triangle_nverts nu nv u) (unit_triangle_faces nu nv u)) /\
+  (forall M m t, torus_rejects M m t = false -> well_formed (torus_nverts M m t) (torus_faces M m t)) /\
+  (forall n L, sphere_uv_rejects n L = false -> well_formed (sphere_uv_nverts n L) (sphere_uv_faces n L)) /\
+  (forall N c, cylinder_rejects N c = false -> well_formed (cylinder_nverts N c) (cylinder_faces N c)) /\
+  (forall N o k, ring_rejects N o k = false -> well_formed (ring_nverts N o k) (ring_faces N o k)) /\
+  (forall N k, flat_ring_rejects N k = false -> well_formed (flat_ring_nverts N k) (flat_ring_faces N k)).
 Proof. exact all_well_formed. Qed.
 Print Assumptions C14_well_formed.
 
 Theorem C14_counts :
-  (forall nu nv t u, 2 <= nu -> 2 <= nv ->
+  (forall nu nv t u, unit_grid_rejects nu nv t u = false ->
      unit_grid_nverts nu nv t u = nu * nv /\ zlen (unit_grid_faces nu nv t u) = (if t then 2 else 1) * ((nu - 1) * (nv - 1))) /\
-  (forall nu nv u, 1 <= nv <= nu -> unit_triangle_nverts nu nv u = (nv * (nv + 1)) / 2) /\
-  (forall nu nv u, 1 <= nu -> 0 <= nv -> unit_triangle_nverts nu nv u = roff nu nv) /\
-  (forall M m t, 0 <= M -> 0 <= m -> torus_nverts M m t = M * m /\ zlen (torus_faces M m t) = (if t then 2 else 1) * (M * m)) /\
-  (forall n L, 1 <= n -> 0 <= L -> sphere_uv_nverts n L = n * L + 2 /\ zlen (sphere_uv_faces n L) = (n + 1) * L) /\
-  (forall N c, 0 <= N -> cylinder_nverts N c = 2 * N + (if c then 2 else 0) /\ zlen (cylinder_faces N c) = (if c then 4 else 2) * N) /\
-  (forall N o k, 1 <= N * k -> ring_nverts N o k = N * k + (if o then 2 else 1) /\ zlen (ring_faces N o k) = N * k) /\
-  (forall N k, 0 <= N * k -> flat_ring_nverts N k = N * k + 2 /\ zlen (flat_ring_faces N k) = N * k) /\
+  (forall nu nv u, unit_triangle_rejects nu nv u = false -> nv <= nu -> unit_triangle_nverts nu nv u = (nv * (nv + 1)) / 2) /\
+  (forall nu nv u, unit_triangle_rejects nu nv u = false -> unit_triangle_nverts nu nv u = roff nu nv) /\
+  (forall M m t, torus_rejects M m t = false -> torus_nverts M m t = M * m /\ zlen (torus_faces M m t) = (if t then 2 else 1) * (M * m)) /\
+  (forall n L, sphere_uv_rejects n L = false -> sphere_uv_nverts n L = n * L + 2 /\ zlen (sphere_uv_faces n L) = (n + 1) * L) /\
+  (forall N c, cylinder_rejects N c = false -> cylinder_nverts N c = 2 * N + (if c then 2 else 0) /\ zlen (cylinder_faces N c) = (if c then 4 else 2) * N) /\
+  (forall N o k, ring_rejects N o k = false -> ring_nverts N o k = N * k + (if o then 2 else 1) /\ zlen (ring_faces N o k) = N * k) /\
+  (forall N k, flat_ring_rejects N k = false -> flat_ring_nverts N k = N * k + 2 /\ zlen (flat_ring_faces N k) = N * k) /\
   (forall n l, 1 <= n -> chain_of_vertices_nverts n l = n /\ zlen (chain_of_vertices_edges n l) = (if l then n else n - 1)) /\
   (forall n, 0 <= n -> vector_field_nverts n = 2 * n /\ zlen (vector_field_edges n) = n).
 Proof. exact all_counts. Qed.
 Print Assumptions C14_counts.
 
 Theorem C14_topology :
-  (forall nu nv t u, 2 <= nu -> 2 <= nv ->
+  (forall nu nv t u, unit_grid_rejects nu nv t u = false ->
      disk_surface (unit_grid_nverts nu nv t u) (unit_grid_faces nu nv t u) (grid_border_cycle nu nv)) /\
-  (forall M m t, 3 <= M -> 3 <= m -> closed_surface (torus_nverts M m t) (torus_faces M m t) 0) /\
-  (forall n L, 1 <= n -> 3 <= L -> closed_surface (sphere_uv_nverts n L) (sphere_uv_faces n L) 2) /\
-  (forall N, 3 <= N -> closed_surface (cylinder_nverts N true) (cylinder_faces N true) 2) /\
-  (forall N, 3 <= N ->
+  (forall M m t, torus_rejects M m t = false -> closed_surface (torus_nverts M m t) (torus_faces M m t) 0) /\
+  (forall n L, sphere_uv_rejects n L = false -> closed_surface (sphere_uv_nverts n L) (sphere_uv_faces n L) 2) /\
+  (forall N, cylinder_rejects N true = false -> closed_surface (cylinder_nverts N true) (cylinder_faces N true) 2) /\
+  (forall N, cylinder_rejects N false = false ->
      border_is_cycles (cylinder_faces N false) [map (cyl_bottom N) (zrange N); map (cyl_top N) (zrange N)] /\
      connected (cylinder_nverts N false) (cylinder_faces N false) /\
      euler (cylinder_nverts N false) (cylinder_faces N false) = 0) /\
-  (forall N k, 3 <= N -> 1 <= k ->
+  (forall N k, ring_rejects N true k = false ->
      disk_surface (ring_nverts N true k) (ring_faces N true k) (map (fun t => t) (zrange (N * k + 2))) /\
      disk_surface (ring_nverts N false k) (ring_faces N false k) (map (fun t => t + 1) (zrange (N * k)))) /\
-  (forall N k, 1 <= N * k ->
+  (forall N k, flat_ring_rejects N k = false ->
      disk_surface (flat_ring_nverts N k) (flat_ring_faces N k) (map (fun t => t) (zrange (N * k + 2)))) /\
-  (forall nu nv u, 2 <= nu -> 2 <= nv ->
+  (forall nu nv u, unit_triangle_rejects nu nv u = false ->
      disk_surface (unit_triangle_nverts nu nv u) (unit_triangle_faces nu nv u) (tri_border_cycle nu nv)).
 Proof. exact all_topology. Qed.
 Print Assumptions C14_topology.
 
 Theorem C14_vertex_manifold :
-  (forall nu nv t u, 2 <= nu -> 2 <= nv -> vertex_manifold (unit_grid_nverts nu nv t u) (unit_grid_faces nu nv t u)) /\
-  (forall nu nv u, 2 <= nu -> 2 <= nv -> vertex_manifold (unit_triangle_nverts nu nv u) (unit_triangle_faces nu nv u)) /\
-  (forall M m t, 3 <= M -> 3 <= m -> vertex_manifold (torus_nverts M m t) (torus_faces M m t)) /\
-  (forall n L, 1 <= n -> 3 <= L -> vertex_manifold (sphere_uv_nverts n L) (sphere_uv_faces n L)) /\
-  (forall N c, 3 <= N -> vertex_manifold (cylinder_nverts N c) (cylinder_faces N c)) /\
-  (forall N o k, 3 <= N -> 1 <= k -> vertex_manifold (ring_nverts N o k) (ring_faces N o k)) /\
-  (forall N k, 1 <= N * k -> vertex_manifold (flat_ring_nverts N k) (flat_ring_faces N k)).
+  (forall nu nv t u, unit_grid_rejects nu nv t u = false -> vertex_manifold (unit_grid_nverts nu nv t u) (unit_grid_faces nu nv t u)) /\
+  (forall nu nv u, unit_triangle_rejects nu nv u = false -> vertex_manifold (unit_triangle_nverts nu nv u) (unit_triangle_faces nu nv u)) /\
+  (forall M m t, torus_rejects M m t = false -> vertex_manifold (torus_nverts M m t) (torus_faces M m t)) /\
+  (forall n L, sphere_uv_rejects n L = false -> vertex_manifold (sphere_uv_nverts n L) (sphere_uv_faces n L)) /\
+  (forall N c, cylinder_rejects N c = false -> vertex_manifold (cylinder_nverts N c) (cylinder_faces N c)) /\
+  (forall N o k, ring_rejects N o k = false -> vertex_manifold (ring_nverts N o k) (ring_faces N o k)) /\
+  (forall N k, flat_ring_rejects N k = false -> vertex_manifold (flat_ring_nverts N k) (flat_ring_faces N k)).
 Proof. exact all_vertex_manifold. Qed.
 Print Assumptions C14_vertex_manifold.
 
@@ -104,7 +122,7 @@ Print Assumptions C14_table_counts.
 
 Theorem C14_params_honoured :
   (* triangulate: all faces are triangles, resp. quads *)
-  (forall nu nv (t u : bool), 2 <= nu -> 2 <= nv -> Forall (fun f : list Z => zlen f = if t then 3 else 4) (unit_grid_faces nu nv t u)) /\
+  (forall nu nv (t u : bool), unit_grid_rejects nu nv t u = false -> Forall (fun f : list Z => zlen f = if t then 3 else 4) (unit_grid_faces nu nv t u)) /\
   (forall M m (t : bool), Forall (fun f : list Z => zlen f = if t then 3 else 4) (torus_faces M m t)) /\
   (forall t : bool, Forall (fun f : list Z => zlen f = if t then 3 else 4) (quad_faces t)) /\
   (forall c t : bool, Forall (fun f : list Z => zlen f = if t then 3 else 4) (hexahedron_faces c t false)) /\
@@ -115,7 +133,7 @@ Theorem C14_params_honoured :
   (forall c t, axis_aligned_cube_faces c t = hexahedron_faces c t false /\ axis_aligned_cube_cells c t = hexahedron_cells c t false) /\
   (forall c v, hexahedron_4pts_faces c v = hexahedron_faces c false v /\ hexahedron_4pts_cells c v = hexahedron_cells c false v) /\
   (* ring: fewer than three triangles are rejected, exactly *)
-  (forall N o k, ring_rejects N o k = true <-> N < 3) /\
+  (forall N o k, ring_rejects N o k = true <-> N < 3 \/ k < 1) /\
   (* loop: the closed chain has the extra edge from the last point to the first *)
   (forall n, chain_of_vertices_edges n false = map (fun i => [i; i + 1]) (zrange (n - 1))) /\
   (forall n, chain_of_vertices_edges n true = map (fun i => [i; (i + 1) mod n]) (zrange n)) /\
@@ -143,8 +161,8 @@ Theorem C14_on_surface :
   (forall n L center radius, Forall (fun p => dist2 p center = (radius * radius)%R) (sphere_uv_coords Rops n L center radius)) /\
   (forall M m R0 r t, Forall (on_torus R0 r) (torus_coords Rops M m R0 r t)) /\
   (forall center radius u, Forall (fun p => dist2 p center = (radius * radius)%R) (icosahedron_coords Rops center radius u)) /\
-  (forall nu nv t u, 2 <= nu -> 2 <= nv -> Forall in_unit_square (unit_grid_coords Rops nu nv t u)) /\
-  (forall nu nv u, 2 <= nu -> 2 <= nv -> Forall in_unit_square (unit_triangle_coords Rops nu nv u)) /\
+  (forall nu nv t u, unit_grid_rejects nu nv t u = false -> Forall in_unit_square (unit_grid_coords Rops nu nv t u)) /\
+  (forall nu nv u, unit_triangle_rejects nu nv u = false -> Forall in_unit_square (unit_triangle_coords Rops nu nv u)) /\
   (forall P0 P1 P2, triangle_coords Rops P0 P1 P2 = [P0; P1; P2]) /\
   (forall P0 P1 P2 t, quad_coords Rops P0 P1 P2 t = [P0; P1; vsub Rops (vadd Rops P2 P1) P0; P2]) /\
   (forall P1 P2 P3 P4 v, tetrahedron_coords Rops P1 P2 P3 P4 v = [P1; P2; P3; P4]) /\
@@ -157,7 +175,7 @@ Theorem C14_on_surface :
      exists ringpts, cylinder_coords Rops P1 P2 radius N caps = ringpts ++ (if caps then [P1; P2] else []) /\
        Forall (fun p => exists P, (P = P1 \/ P = P2) /\ dot3 (vsub Rops p P) a = 0%R /\ dist2 p P = (radius * radius)%R) ringpts) /\
   (forall N d k, exists rim, flat_ring_coords Rops N d k = (0, 0, 0)%R :: rim /\ Forall on_unit_circle rim) /\
-  (forall n (radius : R) b, 1 <= n -> Forall (fun p => dot3 p p = (radius * radius)%R) (sphere_fibonacci_coords Rops n radius b)) /\
+  (forall n (radius : R) b, Forall (fun p => dot3 p p = (radius * radius)%R) (sphere_fibonacci_coords Rops n radius b)) /\
   (forall k (center : vec R) (radius : R) v, (0 < dot3 (vsub Rops v center) (vsub Rops v center))%R ->
      dist2 (icosphere_project Rops k center radius v) center = (radius * radius)%R) /\
   (forall k (center : vec R) (radius : R),
